@@ -536,6 +536,20 @@ type bxvHidden struct {
 	Skip    string `bexpr:"-"`
 	Renamed string `bexpr:"alias"`
 	Meta    map[string]string `bexpr:"meta"`
+	J       string            `json:"jname"`
+}
+
+// bxvWrap is replaced by its content under bxvUnwrapHook (C18: the hook's
+// replacement value is what the operators and the absent-key rule see).
+type bxvWrap struct{ V map[string]interface{} }
+
+func bxvUnwrapHook(v reflect.Value) reflect.Value {
+	if v.IsValid() && v.CanInterface() {
+		if w, ok := v.Interface().(bxvWrap); ok {
+			return reflect.ValueOf(w.V)
+		}
+	}
+	return v
 }
 
 func bxvValues() []interface{} {
@@ -554,6 +568,8 @@ func bxvValues() []interface{} {
 		[]byte("abc"), []bxvOctet{97, 98}, []float32{1.5}, []bool{true}, []uint8{1}, []bxvNamedStr{"abc"},
 		map[string]int{"abc": 1}, map[string]string{}, map[int]string{1: "a"}, map[bxvNamedStr]int{"abc": 1}, map[interface{}]int{"abc": 1, 1: 2}, map[float64]int{1.5: 1}, map[bool]int{true: 1}, nilMap,
 		pi, ppi, nilp, &s, nilIface, make(chan int), func() {}, struct{}{}, bxvInner{A: "abc", N: 1}, &bxvInner{A: "abc"},
+		[]interface{}{5, 0}, []interface{}{7, 3, 0}, []interface{}{true, false}, []interface{}{uint(3), uint(0)}, []interface{}{2.5, 0.0}, []interface{}{float32(2.5), float32(0)},
+		[]interface{}{float64(8080), float64(0), "abc"}, []interface{}{"", "abc"}, []interface{}{nil, 4, nil, 0}, []interface{}{int8(1), int64(0)},
 		json.Number("1"), json.Number("1.5"), json.Number("x"), []json.Number{"1"}, json.Number("9007199254740993"), int64(9007199254740993), uint64(18446744073709551615), float64(9007199254740992),
 	}
 }
@@ -623,7 +639,9 @@ func bxvBoolCases() []bxvCase {
 
 func bxvPathCases() []bxvCase {
 	pm := map[string]string{"a": "b"}
-	h := bxvHidden{Pub: "p", priv: "q", Skip: "s", Renamed: "r", Meta: map[string]string{"k": "v"}}
+	ppm := &pm
+	var nilpm *map[string]string
+	h := bxvHidden{Pub: "p", priv: "q", Skip: "s", Renamed: "r", Meta: map[string]string{"k": "v"}, J: "b"}
 	data := []interface{}{
 		map[string]interface{}{"M": map[string]interface{}{"a": 1, "n": map[string]int{"x": 1}}, "L": []int{1, 2}, "S": "s", "N": nil},
 		struct {
@@ -634,10 +652,17 @@ func bxvPathCases() []bxvCase {
 			L  []bxvInner
 			H  bxvHidden
 			PH *bxvHidden
-		}{M: pm, PM: &pm, IM: pm, St: bxvInner{A: "a"}, L: []bxvInner{{A: "a"}}, H: h, PH: &h},
+			PPM  **map[string]string
+			PPPM ***map[string]string
+			NPM  **map[string]string
+			LPM  []**map[string]string
+			W    bxvWrap
+			LW   []bxvWrap
+		}{M: pm, PM: &pm, IM: pm, St: bxvInner{A: "a"}, L: []bxvInner{{A: "a"}}, H: h, PH: &h, PPM: &ppm, PPPM: func() ***map[string]string { q := &ppm; return &q }(), NPM: &nilpm,
+			LPM: []**map[string]string{&ppm}, W: bxvWrap{V: map[string]interface{}{"a": 1, "n": map[string]int{"x": 1}}}, LW: []bxvWrap{{V: map[string]interface{}{"a": "b"}}}},
 	}
 	sels := []string{"M.a", "M.zz", "M.n.x", "M.n.zz", "M.zz.y", "Zz", "Zz.a", "L.0", "L.5", "L.zz", "S.x", "N.x", "PM.a", "PM.zz", "IM.zz", "St.A", "St.Zz", "L.0.A", "L.0.Zz",
-		"H.Pub", "H.priv", "H.Skip", "H.Renamed", "H.alias", "H.meta.k", "H.meta.zz", "H.Meta.k", "PH.meta.zz", "PH.alias", `"/M/a"`, `"/M/zz"`, `M["a"]`, `M["zz"]`}
+		"H.Pub", "H.priv", "H.Skip", "H.Renamed", "H.alias", "H.meta.k", "H.meta.zz", "H.Meta.k", "PH.meta.zz", "PH.alias", "H.jname", "H.J", "PH.jname", "PPM.a", "PPM.zz", "PPPM.zz", "NPM.zz", "LPM.0.zz", "LPM.0.a", "W.a", "W.zz", "W.n.x", "W.n.zz", "W.V.zz", "LW.0.zz", "LW.0.a", `"/M/a"`, `"/M/zz"`, `M["a"]`, `M["zz"]`}
 	ops := []string{"%s == 1", "%s != 1", "1 in %s", "1 not in %s", "%s is empty", "%s is not empty", "%s matches `x`", "%s not matches `x`", "%s == b", "%s == v",
 		"any %s as x { x == 1 }", "all %s as x { x == 1 }", "any %s as k, v { v == 1 }"}
 	unk := []struct {
@@ -653,6 +678,11 @@ func bxvPathCases() []bxvCase {
 		{[]Option{WithTagName("bexpr"), WithHookFn(nil), WithMaxExpressions(0)}, "neutral options", bxvEnv{}},
 		{[]Option{WithUnknownValue(1), WithTagName("json"), WithTagName("bexpr")}, "unknown + repeated tag", bxvEnv{hasUnknown: true, unknown: 1}},
 		{[]Option{WithHookFn(func(v reflect.Value) reflect.Value { return v })}, "identity hook", bxvEnv{hook: func(v reflect.Value) reflect.Value { return v }}},
+		{[]Option{WithHookFn(bxvUnwrapHook)}, "unwrap hook", bxvEnv{hook: bxvUnwrapHook}},
+		{[]Option{WithHookFn(bxvUnwrapHook), WithTagName("json")}, "unwrap hook + json tag", bxvEnv{hook: bxvUnwrapHook, tag: "json"}},
+		{[]Option{WithTagName("json"), WithHookFn(func(v reflect.Value) reflect.Value { return v }), WithMaxExpressions(0)}, "json tag + identity hook + budget 0", bxvEnv{hook: func(v reflect.Value) reflect.Value { return v }, tag: "json"}},
+		{[]Option{WithTagName("json"), WithHookFn(nil), WithHookFn(bxvUnwrapHook), WithTagName("bexpr")}, "repeated hook and tag, last wins", bxvEnv{hook: bxvUnwrapHook}},
+		{[]Option{WithHookFn(bxvUnwrapHook), WithUnknownValue(1)}, "unwrap hook + WithUnknownValue(1)", bxvEnv{hook: bxvUnwrapHook, hasUnknown: true, unknown: 1}},
 	}
 	var out []bxvCase
 	for _, d := range data {
@@ -750,9 +780,11 @@ func bxvFilterCases(fails *[]bxvFailure) int {
 	n := 0
 	type item struct{ X int }
 	type items []item
+	backing := []item{{1}, {2}, {1}}
 	inputs := []interface{}{
 		[]item{{1}, {2}, {1}}, items{{1}, {2}}, [3]item{{1}, {2}, {1}}, []item{}, map[string]item{"a": {1}, "b": {2}}, map[int]item{1: {1}}, map[string]item{},
 		[]interface{}{item{1}, 5, item{1}}, []*item{{1}, nil}, nil, 5, "s", item{1}, &[]item{{1}}, []map[string]int{{"X": 1}, {"Y": 1}},
+		[0]item{}, []item(nil), items(nil), backing[:0], backing[:1], map[string]item(nil), map[int]item{}, [1]item{{1}}, []interface{}{}, map[string]interface{}{},
 	}
 	for _, expr := range []string{"X == 1", "X != 1", "not X == 1", "Zz == 1"} {
 		f, err := CreateFilter(expr)
@@ -774,6 +806,23 @@ func bxvFilterCases(fails *[]bxvFailure) int {
 					*fails = append(*fails, bxvFailure{Kind: "filter", Expr: expr, Datum: before, Got: "input modified: " + after})
 				}
 				rv := reflect.ValueOf(in)
+				// a new container: a map result is non-nil and not the input map; a slice
+				// result shares no storage with the input (observable through append)
+				if err == nil && res != nil {
+					out := reflect.ValueOf(res)
+					switch {
+					case rv.Kind() == reflect.Map && out.Kind() == reflect.Map:
+						if out.IsNil() {
+							*fails = append(*fails, bxvFailure{Kind: "filter", Expr: expr, Datum: before, Got: "nil map result", Want: "a new map"})
+						} else if !rv.IsNil() && out.Pointer() == rv.Pointer() {
+							*fails = append(*fails, bxvFailure{Kind: "filter", Expr: expr, Datum: before, Got: "the result is the input map", Want: "a new map"})
+						}
+					case rv.Kind() == reflect.Slice && out.Kind() == reflect.Slice && rv.Cap() > 0 && out.Cap() > 0:
+						if out.Slice(0, 1).Index(0).Addr().Pointer() == rv.Slice(0, 1).Index(0).Addr().Pointer() {
+							*fails = append(*fails, bxvFailure{Kind: "filter", Expr: expr, Datum: before, Got: "the result shares the input's storage", Want: "a new slice"})
+						}
+					}
+				}
 				want := "error"
 				switch rv.Kind() {
 				case reflect.Slice, reflect.Array:
@@ -1142,6 +1191,15 @@ func bxvParseCases(fails *[]bxvFailure) int {
 			n += 2
 			for _, c := range bxvTokens {
 				bxvParseOne(a+" "+b+" "+c, fails)
+				n++
+			}
+		}
+	}
+	// valid statements padded with bytes and runes that are white space to unicode/strings but not to the grammar
+	for _, w := range []string{"\v", "\f", "\x00", "\u0085", "\u00a0", "\u1680", "\u2003", "\u2028", "\u3000", "\ufeff", "\r", " ", "\r\n\t ", "\x85", "\xa0"} {
+		for _, st := range []string{"a == 1", "a is empty", "not a in b", "any a as x { x == 1 }"} {
+			for _, in := range []string{w + st, st + w, w + st + w, strings.Replace(st, " ", w, 1), strings.Replace(st, " ", " "+w+" ", 1)} {
+				bxvParseOne(in, fails)
 				n++
 			}
 		}
